@@ -55,6 +55,20 @@ Proof.
 Qed.
 Print Assumptions C03_retired_are_pending.
 
+(* between calls the pool is at full strength, however the retirements fell - also for workers that retired with the very
+   last chunk of a call: every slot holds a worker that has not left its loop (it has been replaced before the call ended) *)
+Theorem C03_full_strength_between_calls : forall cfg hist sched, cfg_ok cfg -> Forall action_ok hist -> fault_free_sched sched ->
+  let s := run cfg (init cfg hist) sched in
+  s_main s = MIdle ->
+  length (s_procs s) = c_workers cfg
+  /\ forall j w, nth_error (s_procs s) j = Some w -> w_pc w <> WEnding /\ w_pc w <> WDead /\ forall i xs, w_pc w <> WHoldR i xs.
+Proof.
+  intros cfg hist sched Ok Hh Hs s Hm. destruct (live_run cfg hist sched Ok Hh Hs) as [_ _ _ Ls Lp Lx _]. fold s in Ls, Lp, Lx.
+  split; [apply (s_len _ _ Ls)|]. intros j w N. pose proof (idle_full_strength cfg s Ls Lp Lx Hm j w N) as R.
+  unfold retiring in R. destruct (w_pc w); try discriminate; repeat split; discriminate.
+Qed.
+Print Assumptions C03_full_strength_between_calls.
+
 (* nothing of the replace protocol leaks into the next call: outside the join of the replace thread its queue holds no
    stop token, and the thread is not left in its stopped state *)
 Theorem C03_no_stale_stop_token : forall cfg hist sched, cfg_ok cfg -> Forall action_ok hist -> fault_free_sched sched ->
